@@ -205,7 +205,11 @@ func genC11(rt *rapid.T) C11Case {
 				used[f.Name] = true
 			}
 			nf := shape.Field{Kind: "leaf", Type: x.Type}
-			if rapid.Bool().Draw(rt, "collide_by_go_name") && !used[x.FlatName] && !x.Embedded && !x.InnerTag && x.FlatName != "" {
+			adjacent := false
+			for i := 1; i < len(words); i++ {
+				adjacent = adjacent || (c11Initialisms[words[i-1]] && c11Initialisms[words[i]])
+			}
+			if rapid.Bool().Draw(rt, "collide_by_go_name") && !used[x.FlatName] && !x.Embedded && !x.InnerTag && !x.OwnTag && !adjacent && x.FlatName != "" {
 				nf.Name, nf.Words = x.FlatName, words
 				noteTag("collision:go-name")
 			} else {
